@@ -25,6 +25,7 @@ func runC10(c *Ctx) {
 	c.Rule("G4 row window: in the function that processes a claimed row, the wait on the row above precedes, and the signal of the own row follows, every access to the shared context arrays at indices that do not depend on the claimed row")
 	c.Rule("G5 lock pairing: every Mutex.Lock is followed by Unlock on all paths (or deferred)")
 	c.Rule("G7 package state: no package-level variable is stored to outside init functions, sync.Once bodies and functions only reachable from them")
+	c.Rule("G9 atomic control: no goroutine body branches on a value loaded from an atomic variable that the goroutines of the same spawner also update (tickets obtained from Add are not loads; the wait/signal protocol type is checked by G3)")
 	c.Assume("G8 accepts arg-min/arg-max selection by a message-carried key; this is order independent when the producers' keys are distinct (they are the work indices)")
 	c.Rule("A2c (shared with C11): nothing derived from a pooled object is used, stored or returned after it was put back")
 	c.NotCovered("element-wise disjointness of partitioned writes is checked only as 'the index depends on the work assignment', not proven; freedom from deadlock other than the lost wake-up pattern of G3")
@@ -45,6 +46,7 @@ func runC10(c *Ctx) {
 		g.capturedWrites()
 		g.neighbourReads()
 		g.arrivalOrder()
+		g.atomicControl()
 		g.wakeup()
 		g.lockPairing()
 		g.globals()
@@ -53,7 +55,7 @@ func runC10(c *Ctx) {
 	for _, r := range rows {
 		if !r.used {
 			c.SetConfig("tables")
-			c.Stale("concurrency:"+r.typ+":"+r.loc)
+			c.Stale("concurrency:" + r.typ + ":" + r.loc)
 		}
 	}
 }
@@ -62,6 +64,14 @@ type a4 struct {
 	c    *Ctx
 	p    *Program
 	rows []*reviewRow
+	s1c  *s1
+}
+
+func (g *a4) s1() *s1 {
+	if g.s1c == nil {
+		g.s1c = newS1(g.p)
+	}
+	return g.s1c
 }
 
 func (g *a4) reviewed(kind, key string) *reviewRow {
@@ -1415,6 +1425,35 @@ func (g *a4) neighbourReads() {
 				}
 				if !guarded && bad == "" {
 					bad = p.Pos(ld.Pos())
+				}
+			}
+		}
+		// the whole shared slice handed to a function that reads its elements: the callee can look at
+		// elements other goroutines are writing (neighbouring tiles, rows of another chunk)
+		if bad == "" {
+			s1x := g.s1()
+			for _, b := range fn.Blocks {
+				for _, in := range b.Instrs {
+					call, ok := in.(*ssa.Call)
+					if !ok {
+						continue
+					}
+					callee := call.Call.StaticCallee()
+					if callee == nil || callee.Blocks == nil || !p.IsModFunc(callee) {
+						continue
+					}
+					for ai, a := range call.Call.Args {
+						k := baseKey(a)
+						if k == nil || len(writes[k]) == 0 || ai >= len(callee.Params) {
+							continue
+						}
+						if _, isSl := a.Type().Underlying().(*types.Slice); !isSl {
+							continue
+						}
+						if s1x.sliceSummary(callee, ai).reads && bad == "" {
+							bad = p.Pos(call.Pos()) + " (passed to " + callee.Name() + ", which reads it)"
+						}
+					}
 				}
 			}
 		}
